@@ -40,6 +40,10 @@ class Prop(BaseProp):
             for stream, sch in [("c08", "none"), ("c08z", rng.choice(["lz4", "bg4", "auto"]))]:
                 add(stream, sch, chunks, "id")
                 add(stream, sch, chunks, "id", "otherhash")
+                # a footer that describes the chunks exactly but records another hash, validated against that other hash -- and
+                # against the true one
+                add(stream, sch, chunks, "sethash", "otherhash")
+                add(stream, sch, chunks, "sethash")
                 add(stream, sch, chunks, "nofooter")
                 add(stream, sch, chunks, "dropchunk")
                 add(stream, sch, chunks, "dupchunk")
